@@ -1,6 +1,7 @@
 import GoDcp.Driver.Util
 import GoDcp.Model.MinSeqNo
 import GoDcp.Spec.C07
+import GoDcp.Model.RmStop
 /-!
 handlers of slice C07: `rm-script` (stream `c07rm`, harness/l2_rm.go) and
 `gate-script` (stream `c07gate`, harness/l1_gate.go).  Handlers are stateless,
@@ -19,6 +20,11 @@ so one op line carries a whole script and the observation has one token per step
           `i`              nothing changes
           `x`              Stop()
     observation token per step: `[a.b.c]` (dispatches of a (re)start, in order), `dM`, `n`, `stopped`
+`rm-stop-slow I D P`   (stream `c07rm`; properties C13 / C07 "closing … releases")  one instance of the REAL rollback
+    mitigation, poll interval I ms; one replica answers the OBSERVE_SEQNO requests of one round only after D ms
+    (D ≥ 3·I, so the next tick is buffered while the round runs); `Stop()` is called P ms into that round (P < D).
+    observation: `stopped late-observes=N` (Stop() returned within the rest of the delay + 1 s; N = OBSERVE requests
+    that reached any node during 5 intervals after the return) | `stopped-late late-observes=N` | `hang` (not back after 4 s)
 `gate-script STEP…`
     STEP  `a:mk:S:E` | `a:mu:Q` | `a:de:Q` | `a:ex:Q` | `a:sa:Q` | `a:sy:Q` | `a:os`   an event arrives (own goroutine)
           `p:M`            SetPersistSeqNo(M)
@@ -87,6 +93,43 @@ def hRmScript (args : List String) (real : Option String) : Option Out := do
         | some c => s!"FAIL {c}"
   some { model, verdict }
 
+/-- `rm-stop-slow I D P`.  Model: Model/RmStop.lean, the close handshake `observeCloseCh` / `observeCloseDoneCh`
+    explored over ALL interleavings from the state the scenario sets up (`RmStop.slowRound`: goroutine inside the
+    round, next tick buffered, `Stop()` about to run): `RmStop.predict {}` = `stopped late-observes=0`
+    (`Props/C13Rm.slow_round_scenario`; for every reachable state: `stop_returns`, `stop_answered_exactly_once`,
+    `no_round_after_stop`).  The wall-clock figures I, D, P only select the scenario; they are not part of the model.
+    Monitor on the REAL observation:
+      `C13.rollback-mitigation-stop-hangs`   `Stop()` did not return (4 s) – stream.Close(), Dcp.Close(), every rebalance hang with it
+      `C07.close-blocked-before-release`     (same observation) stream.Close() calls `rollbackMitigation.Stop()` BEFORE `observer.Close()`
+                                             (stream.go l.419-426): calls waiting at the gate are never released
+      `C13.rollback-mitigation-stop-late`    it returned, but later than the slow round lasted + 1 s
+      `C13.polling-not-stopped`              OBSERVE requests reached a node after `Stop()` had returned -/
+def hRmStopSlow (args : List String) (real : Option String) : Option Out := do
+  let [i, d, p] ← pure args | none
+  let i ← i.toNat?
+  let d ← d.toNat?
+  let p ← p.toNat?
+  if i == 0 || d < 3 * i || p ≥ d then none
+  let model := RmStop.predict {}
+  let verdict := match real with
+    | none => "-"
+    | some r =>
+      match toks r with
+      | ["hang"] => "FAIL C13.rollback-mitigation-stop-hangs C07.close-blocked-before-release"
+      | [st, l] =>
+        match (l.splitOn "=") with
+        | ["late-observes", n] =>
+          match n.toNat? with
+          | some n =>
+            if st != "stopped" && st != "stopped-late" then "FAIL parse"
+            else if n != 0 then "FAIL C13.polling-not-stopped"
+            else if st == "stopped-late" then "FAIL C13.rollback-mitigation-stop-late"
+            else "ok"
+          | none => "FAIL parse"
+        | _ => "FAIL parse"
+      | _ => "FAIL parse"
+  some { model, verdict }
+
 def docEv (k : DocKind) (q : Nat) : SrvEv := .doc { kind := k, seq := q, cas := 0, key := "", coll := 0, payload := "" }
 
 def gStep? (s : String) : Option GStep :=
@@ -140,6 +183,6 @@ def hGateScript (args : List String) (real : Option String) : Option Out := do
 end C07d
 
 def minSeqNoHandlers : List (String × (List String → Option String → Option Out)) :=
-  [("rm-script", C07d.hRmScript), ("gate-script", C07d.hGateScript)]
+  [("rm-script", C07d.hRmScript), ("rm-stop-slow", C07d.hRmStopSlow), ("gate-script", C07d.hGateScript)]
 
 end GoDcp.Driver
